@@ -1328,6 +1328,8 @@ class Ev:
             return True
         if isinstance(v, (CondV, TolCond)) and getattr(self, "branch_oracle", None) is not None:
             return self.branch_oracle(v)
+        if is_sym(v) and isinstance(v, sp.logic.boolalg.Boolean) and getattr(self, "branch_oracle", None) is not None:
+            return self.branch_oracle(v)        # a relation between data values (table labels ...): decided by the exploring rule, both ways
         if isinstance(v, (CondV, TolCond)):
             raise DataDependentBranch(f"branch on array data [{getattr(v, 'text', '?')}]", f"{mod.rel}:{getattr(n, 'lineno', 0)}" if mod else "")
         raise self.err(f"branch on a value that is not a known constant ({type(v).__name__})", n, mod)
@@ -3190,6 +3192,8 @@ def lib_float(ev, a, k, n, mod):
 
 def lib_str(ev, a, k, n, mod):
     v = a[0]
+    if v is None:
+        return "None"
     if is_sym(v) and v.is_Integer:
         return str(int(v))
     if isinstance(v, str):
